@@ -17,6 +17,13 @@ Bad(e) ==
          IF ~e.ok THEN {"seed-helper-raised"}
          ELSE (IF InRange(e.value, e.n) THEN {} ELSE {"seed-value-out-of-range"})
               \cup (IF e.value = e.again THEN {} ELSE {"seed-helper-not-deterministic"})
+    \* beyond the listed property (clause names start with HELPER: reported as a note): util.PRNG used as an entropy function
+    \* hands out exactly the number of bytes asked for, and the same stream however the reads are split
+    [] e.op = "prng" ->
+         LET RECURSIVE Cat(_)
+             Cat(k) == IF k = 0 THEN <<>> ELSE Cat(k - 1) \o e.outs[k]
+         IN  IF e.ok /\ (\A j \in 1..Len(e.sizes) : Len(e.outs[j]) = e.sizes[j]) /\ Cat(Len(e.outs)) = e.whole
+             THEN {} ELSE {"HELPER-prng-short-or-inconsistent-read"}
     [] e.op = "dist" ->
          \* uniform: every v in [1, n-1] is produced by the same number of accepted chunks, nothing else is produced
          LET nn == ToNat(Strip(e.n))
